@@ -20,6 +20,13 @@ func PropC06(c *vs.Case, f Factory, kind string) error {
 			c.Class("desired-carries-status")
 		}
 	}
+	for i := range scn.Prog.Children {
+		if sp, ok := scn.Prog.Children[i].Fields["spec"].(map[string]any); ok && c.Prob(1, 4) {
+			// an explicitly empty list where others may inject name-keyed entries
+			sp["ports"] = []any{}
+			c.Class("desired-has-empty-list")
+		}
+	}
 	scn.Cfg.SSA = false
 	scn.Cfg.FinalizeHook = false
 	env, err := NewEnv(scn, f)
@@ -44,7 +51,16 @@ func PropC06(c *vs.Case, f Factory, kind string) error {
 	for _, o := range owned {
 		res := env.W.Sim.DefByKind(o["apiVersion"].(string), o["kind"].(string)).Resource
 		ns, name := metaStr(o, "namespace"), metaStr(o, "name")
-		switch c.Weighted(3, 3, 2, 2, 1, 2, 1) {
+		switch c.Weighted(3, 3, 2, 2, 1, 2, 1, 1) {
+		case 7: // someone already set the very field (and value) the hook may start asking for below
+			env.W.Sim.ExtUpdate(res, ns, name, func(obj map[string]any) {
+				if res == "configmaps" {
+					obj["data"].(map[string]any)["added"] = "new"
+				} else {
+					obj["spec"].(map[string]any)["added"] = "new"
+				}
+			})
+			perts = append(perts, pert{ObjID(o), "foreign-sets-future-desired-field"})
 		case 0:
 			perts = append(perts, pert{ObjID(o), "none"})
 		case 1: // owned field drifts
@@ -62,6 +78,9 @@ func PropC06(c *vs.Case, f Factory, kind string) error {
 					obj["data"].(map[string]any)["foreign"] = "f"
 				} else {
 					obj["spec"].(map[string]any)["foreign"] = map[string]any{"a": int64(1)}
+					if _, has := obj["spec"].(map[string]any)["ports"]; has {
+						obj["spec"].(map[string]any)["ports"] = []any{map[string]any{"name": "injected", "port": int64(8080)}}
+					}
 				}
 				metaOfMap(obj)["labels"].(map[string]any)["foreign-label"] = "z"
 			})
